@@ -75,6 +75,7 @@ Zero(T0) == LET T == Resolve(T0) IN
     [] T.k = "slice" -> [nil |-> TRUE, e |-> <<>>]
     [] T.k = "map" -> [nil |-> TRUE, m |-> <<>>]
     [] T.k = "struct" -> [i \in 1..Len(T.f) |-> Zero(T.f[i].t)]
+    [] T.k = "unsup" -> <<>>          \* unsupported Go kinds only occur in fields that are never encoded; their values are opaque
     [] T.k = "jsonobj" -> [k |-> "obj", nil |-> TRUE, m |-> <<>>]
     [] T.k = "jsonarr" -> [k |-> "arr", nil |-> TRUE, e |-> <<>>]
 =============================================================================
